@@ -8,6 +8,7 @@
 //!assume: the blanket `impl RecordVariantBuilder<D> for F: FnOnce(..)` is a transparent delegation (one line; not extracted: Verus has no FnOnce-with-&mut specs)
 //!assume: implementors of RecordVariantBuilder satisfy `generic_post` (proved for append_data, append_data_reverse, basic in unit layout via lemma; bounded for simple)
 //!assume: String::from / Into<String> conversions of names are opaque (name text is not interpreted)
+//!assume: `panic!` never returns (rule R14: in `build`, whose contract is "rejects by panicking", the panic statement is replaced by the external_body function `vx_diverge() -> !`)
 //!assume: Verus' encoding of Rust semantics, Z3, rustc front end
 //!props fn push : C12, C01, C03
 //!props fn has_pending_changes : C12
@@ -386,14 +387,20 @@ impl<D> GenericRecordDefinitionBuilder<D> {
 
 //@fn truc/src/record/definition/builder/generic/mod.rs :: impl<D> GenericRecordDefinitionBuilder<D> :: fn build
 //@ ret r
-//@ requires
-        // finishing with unclosed changes is rejected (panic): stated as a precondition, so every
-        // caller must prove there are none
-        self.data_to_add@.len() == 0 && self.data_to_remove@.len() == 0 // [C12]
+//@ panic-diverges
 //@ ensures
+        // finishing with unclosed changes is rejected (by panicking, rule R14): whenever `build`
+        // returns, nothing was pending
+        self.data_to_add@.len() == 0 && self.data_to_remove@.len() == 0, // [C12]
         r.datum_definitions == self.datum_definitions, // [C12]
         r.variants == self.variants, // [C12]
 //@end
+}
+
+/// rule R14: a rejecting `panic!` (diverges; assumed: `panic!` never returns)
+#[verifier::external_body]
+pub fn vx_diverge() -> ! {
+    panic!()
 }
 
 // ---------------------------------------------------------------------------------------------
